@@ -231,6 +231,11 @@ def image_cases(ctx, n):
                         metas.append(dict(inp, image=rname))
                     break
             if not ok:
+                if cands and kind != "dct":          # the model is compared with the file even when the oracle rejects it
+                    bits = {"gray": 8, "rgb": 24, "bw": 1}[kind]
+                    bpl = {"gray": w, "rgb": 3 * w, "bw": (w + 7) // 8}[kind]
+                    bcases.append(("(%d, %d, %d, %d, %s)" % (bits, w, h, bpl, gbytes(data)), CBy(open(os.path.join(outdir, cands[0]), "rb").read())))
+                    metas.append(dict(inp, image=rname))
                 detail = []
                 for f in cands[:2]:
                     b = open(os.path.join(outdir, f), "rb").read()
